@@ -1,6 +1,7 @@
 (* C08 -- property theorems only: statement + exact + Print Assumptions. *)
 From Coq Require Import List ZArith Bool.
-From LJT Require Import model.Partial gen.GenScaling proofs.PartialGeomProofs proofs.PartialSchedProofs proofs.PartialCtxExamples.
+From LJT Require Import model.Partial gen.GenScaling proofs.PartialGeomProofs proofs.PartialSchedProofs proofs.PartialCtxExamples
+  model.PartialSmooth proofs.PartialSmoothProofs.
 Import ListNotations.
 Local Open Scope Z_scope.
 
@@ -86,6 +87,33 @@ Theorem C08_tj_align_is_crop_align :
   tjscaled (8 * hmax) num den = M * hmax.
 Proof. exact tj_align_is_crop_align. Qed.
 Print Assumptions C08_tj_align_is_crop_align.
+
+(* interblock smoothing (progressive data of incomplete AC precision) under a crop, jdcoefct.c
+   decompress_smooth_data: with last_block_column = width_in_blocks - 1 (generated fact) the five block
+   columns whose DC values smooth block column b of the region are the ones a full decode uses, for every
+   block column of the region except the first two of a region whose left edge is inside the image; they always
+   lie inside [first_MCU_col, width_in_blocks - 1] *)
+Theorem C08_smoothing_window :
+  forall wib first last b,
+  0 <= first -> first <= b <= last -> last < wib ->
+  (forall c, In c (smooth_cols first (lbc_of gen_smooth_lbc_is_width wib last) b) -> first <= c <= wib - 1) /\
+  ((first = 0 \/ first + 2 <= b) ->
+   smooth_cols first (lbc_of gen_smooth_lbc_is_width wib last) b = full_cols wib b).
+Proof.
+  intros wib first last b H0 Hb Hl. split.
+  - intros c. exact (smooth_window_range wib first last b c H0 Hb Hl).
+  - exact (smooth_window_same wib first last b H0 Hb Hl).
+Qed.
+Print Assumptions C08_smoothing_window.
+
+(* the clause without the exception is false for the code that exists (hazard 7, replayed by the check),
+   and a crop-dependent last_block_column would break the right edge as well *)
+Theorem C08_refuted_smoothing_left_edge :
+  (exists wib first last b, 0 < first /\ first <= b <= last /\ last < wib /\
+     smooth_cols first (lbc_of gen_smooth_lbc_is_width wib last) b <> full_cols wib b) /\
+  (exists wib last b, 0 <= b <= last /\ last < wib /\ smooth_cols 0 (lbc_of false wib last) b <> full_cols wib b).
+Proof. exact (conj smooth_left_edge_refuted smooth_right_edge_needs_width). Qed.
+Print Assumptions C08_refuted_smoothing_left_edge.
 
 (* (3)+(4) skip/read histories on the no-context main controller (separate or merged upsampler).
    FULL statement (kept visible; it is FALSE for the code that exists, see C08_skip_read_equals_full_refuted):
